@@ -836,7 +836,7 @@ func staleErrorRule(c *core.Check, r *core.Rule, pkgs ...string) {
 				if at != token.NoPos {
 					pos = p.Pos(at)
 				}
-				r.Cond(bad == "", key, pos, "every error tested in the loop is assigned in the same iteration", "the error variable "+bad+" keeps its value from one iteration to the next and is tested again: after one invalid item every following item of the list is dropped too (`div { &::selection {…} & p {width:10px} }` lost the second nested rule)")
+				r.Cond(at == token.NoPos, key, pos, "every error tested in the loop is assigned in the same iteration", "the error variable "+bad+" keeps its value from one iteration to the next and is tested again: after one invalid item every following item of the list is dropped too (`div { &::selection {…} & p {width:10px} }` lost the second nested rule)")
 			}
 		}
 	}
